@@ -221,9 +221,14 @@ class TokNumber(Token):
         for prefix, base in ((b'0x', 16), (b'0b', 2)):
             if data.startswith(prefix):
                 integer, _, frac = data[2:].partition(b'.')
-                result = float(int(integer, base)) if integer else 0.0
+                try:
+                    result = float(int(integer, base)) if integer else 0.0
+                except OverflowError:
+                    result = float('inf')
                 if frac:
-                    result += float(int(frac, base))/(base**len(frac))
+                    # (Divide as integers: with very many digits neither
+                    # number fits a float.)
+                    result += int(frac, base) / (base**len(frac))
                 return result
         return float(self._data)
 
